@@ -281,6 +281,17 @@ CLAIMED["C21"] = dict(
         "histories (who increments), rename (moveSelfEntry does not carry the hard link fields - noticed, not investigated) and FUSE link creation are not decided. " + TRUST,
    design="DESIGN.md §4 C21")
 
+CLAIMED["C25"] = dict(
+   text="Proof-level guard obligation on the real FilerServer.saveMetaData (HTTP, lookups and storing abstracted; the chunk loop carries an inductive invariant for any "
+        "number of uploaded chunks): where the chunk list is handed on, every uploaded chunk has been shifted by exactly the recorded file size minus the uploaded bytes "
+        "- i.e. an append places the new data at the size the file had before and grows the recorded size by the uploaded bytes, a plain write shifts nothing and "
+        "records exactly the uploaded bytes (exact 64-bit arithmetic).",
+   note="Only the offset arithmetic of saveMetaData: uploadReaderToChunks (goroutines: out of the sequential subset; the seeded change C25-m1 lives there), reading the "
+        "request body, the upload RPCs, 'current end of the file' as max(chunk end, recorded size) and error paths are not decided. Assumed: a looked-up entry is "
+        "decoded afresh (shares no chunk array with the request), lookups and query parsing do not modify the uploaded chunks, stored sizes are below 2^61; memory "
+        "safety of the abstracted function is assumed. " + TRUST,
+   design="DESIGN.md §4 C25")
+
 NA = {
  "C03":"crash-point property over byte-level truncation of two persistent files; no per-function contract within reach decides it (DESIGN §4 C03)",
  "C10":"needs inductive tree predicates and cardinality reasoning over interface-typed nodes in pointer maps with randomised picking (DESIGN §4 C10)",
